@@ -1078,6 +1078,116 @@ def gen_RX(seed, thorough):
 
 
 # =================================================================================================
+# RV : VIEWS as written objects: Substructure over ascending / reversed / shuffled index lists, the
+#      CartesianGeometry / Structure / Molecule copies of it, Conformer views and copies of them.
+#      Line k of the written frame = (element, coordinates) of source.atoms[k] by the PARENT's own data
+# =================================================================================================
+RV_SOURCES = ["Substructure", "CartesianGeometry(sub)", "Structure(sub)", "Molecule(sub)", "Conformer", "Molecule(conformer)"]
+
+
+def check_xyz_views(ctx, atoms, frames, idx):
+    """atoms/frames: the parent (k frames; frame 0 for Substructure sources, every frame for the Conformer sources); idx: index list"""
+    tmp = Path(ctx.scratch) / f"c08-{os.getpid()}-v.xyz"
+    tmpw = Path(ctx.scratch) / f"c08-{os.getpid()}-vw.xyz"
+    case = {"layer": "RV", "atoms": [list(a) for a in atoms], "frames": frames, "idx": list(idx)}
+    order = "ascending" if list(idx) == sorted(idx) else ("reversed" if list(idx) == sorted(idx, reverse=True) else "shuffled")
+    ctx.count(evaluations=1, states=1, traces=1)
+    ctx.nontrivial(("RV", digest(case)))
+    cells, wcells, detail = {}, {}, {}
+    texts_all = []
+    for src in RV_SOURCES:
+        objs = []  # (object, expected pseudo-spec)
+        try:
+            if src in ("Conformer", "Molecule(conformer)"):
+                ens, ref, _h = build(mkspec("E", "parent", atoms, frames))
+                for ci in range(len(frames)):
+                    o = ens[ci] if src == "Conformer" else Molecule(ens[ci])
+                    objs.append((o, {"kind": "M", "atoms": [list(a) for a in atoms], "frames": [ref[ci]]}))
+            else:
+                parent, ref, _h = build(mkspec("S", "parent", atoms, frames[:1]))
+                sub = parent.substructure(list(idx))
+                o = {"Substructure": lambda: sub, "CartesianGeometry(sub)": lambda: CartesianGeometry(sub), "Structure(sub)": lambda: Structure(sub), "Molecule(sub)": lambda: Molecule(sub)}[src]()
+                objs.append((o, {"kind": "S", "atoms": [list(atoms[i]) for i in idx], "frames": [[ref[0][i] for i in idx]]}))
+        except UnderTestDeviation as e:
+            wcells.setdefault("setup-" + e.symptom, set()).add((src, "-"))
+            detail.setdefault("setup-" + e.symptom, e.detail)
+            continue
+        except Exception as e:
+            if not raised_in_library(e):
+                raise
+            wcells.setdefault(f"setup-raised-{exc(e)}", set()).add((src, "-"))
+            detail.setdefault(f"setup-raised-{exc(e)}", f"{src} over atoms {list(idx)}: {exc(e)}: {e}")
+            continue
+        for obj, espec in objs:
+            texts = {}
+            for w in WRITERS:
+                ctx.count(transitions=1)
+                try:
+                    t = do_write(obj, w, tmpw)
+                except Exception as e:
+                    wcells.setdefault(f"write-raised-{exc(e)}", set()).add((src, w))
+                    detail.setdefault(f"write-raised-{exc(e)}", f"{exc(e)}: {e}")
+                    continue
+                texts.setdefault(t, []).append(w)
+            for text in sorted(texts):
+                texts_all.append(text)
+                tmp.write_text(text, encoding="utf-8", newline="")
+                for r in XYZ_READERS:
+                    ctx.count(transitions=1)
+                    try:
+                        res = do_read(r, text, tmp)
+                    except Exception as e:
+                        syms = [(f"read-raised-{exc(e)}", f"{exc(e)}: {e}")]
+                    else:
+                        syms = observe(espec, r, res, 1e-6)
+                    for s_, d in syms:
+                        for w in texts[text]:
+                            cells.setdefault(s_, set()).add((src, w, r))
+                        detail.setdefault(s_, d)
+    ctx.outcome(("RV", digest(texts_all), tuple(sorted(cells)), tuple(sorted(wcells))))
+
+    def sdesc(ss):
+        ss = [x for x in RV_SOURCES if x in ss]
+        if ss == RV_SOURCES:
+            return "*"
+        if ss == RV_SOURCES[:4]:
+            return "Substructure-and-copies"
+        if ss == RV_SOURCES[4:]:
+            return "Conformer-and-copies"
+        return ",".join(ss)
+
+    for sym in sorted(wcells):
+        for gs, gw in product_groups(wcells[sym], 2):
+            ctx.violation(f"rt-view|order={order}|{sym}|src={sdesc(gs)}|w={_desc([w for w in gw if w != '-'], WRITERS) or '-'}", f"{gs[0]} over atoms {list(idx)}: {detail[sym]}", case)
+    for sym in sorted(cells):
+        for gs, gw, gr in product_groups(cells[sym], 3):
+            # the index order only matters for the Substructure family
+            o = order if any(x in RV_SOURCES[:4] for x in gs) else "-"
+            ctx.violation(
+                f"rt-view|order={o}|{sym}|src={sdesc(gs)}|w={_desc(gw, WRITERS)}|r={_desc(gr, XYZ_READERS)}",
+                f"{gs[0]} over atoms {list(idx)} written by {gw[0]}, read by {gr[0]}: {detail[sym]}",
+                case,
+                repro=(
+                    "import molli as ml, numpy as np\nfrom molli.chem import Atom, Element\n"
+                    f"p = ml.Structure([Atom(Element(z)) for z in {[a[0] for a in atoms]!r}], coords=np.array({frames[0]!r}, dtype=float))\n"
+                    f"sub = p.substructure({list(idx)!r}); print([a.element.name for a in sub.atoms]); print(sub.dumps_xyz()); print(ml.Structure(sub).dumps_xyz())"
+                ),
+            )
+
+
+def gen_RV(seed, thorough):
+    tr = triples(seed + 11, [v for v in CVALS if v == v])
+    atoms = [(1, REG), (6, REG), (7, REG), (8, REG), (9, REG)]
+    f0 = [[tr[i % len(tr)][0] + i, tr[i % len(tr)][1], tr[i % len(tr)][2] - i] for i in range(5)]
+    f1 = [[p[1], p[2] + 2.0, p[0]] for p in f0[::-1]]
+    lists = [[0, 1, 2, 3, 4], [4, 3, 2, 1, 0], [4, 1, 3], [1, 3, 4], [3, 1], [2], [2, 4, 0, 3, 1], [1, 2]]
+    if thorough:
+        lists += [list(p) for p in itertools.permutations(range(5), 3)]
+    for idx in rot(lists, seed):
+        yield atoms, [f0, f1], idx
+
+
+# =================================================================================================
 # RH : multi-frame texts whose frames are DIFFERENT geometries (same or different atom count)
 #      - per-stream state of the multi-frame reader must not leak from one frame into the next
 # =================================================================================================
@@ -1149,7 +1259,25 @@ def het_text(frames, source, comments=None, final_newline=True):
     return text
 
 
-def check_hetero(ctx, frames, comments=None, final_newline=True):
+HET_PARSER = ["parsing.read_xyz"]
+Z_OF_SYMBOL = None
+
+
+class _Shim:
+    def __init__(self, **kw):
+        self.__dict__.update(kw)
+
+
+def xyz_block_shim(b):
+    """an XYZBlock of the public parser API as a geometry-like object for the oracle"""
+    global Z_OF_SYMBOL
+    if Z_OF_SYMBOL is None:
+        Z_OF_SYMBOL = {v.lower(): k_ for k_, v in SYMBOL_OF.items()}
+    atoms = [_Shim(element=(0 if a.symbol == "*" else Z_OF_SYMBOL.get(a.symbol.lower(), -1)), atype=(DUMMY if a.symbol == "*" else REG)) for a in b.atoms]
+    return _Shim(atoms=atoms, coords=np.array([(a.x, a.y, a.z) for a in b.atoms], dtype=float).reshape(len(atoms), 3), n_ok=b.n_atoms == len(atoms), n=(b.n_atoms, len(atoms)))
+
+
+def check_hetero(ctx, frames, comments=None, final_newline=True, _collect=False):
     """frames: [{"atoms": [[Z, atype]..], "xyz": [[x,y,z]..]}, ..] (1..k frames, each its own geometry);
     comments: the comment (= name) line of every frame (layer RC), else 'frame i'"""
     tmp = Path(ctx.scratch) / f"c08-{os.getpid()}-h.xyz"
@@ -1179,10 +1307,15 @@ def check_hetero(ctx, frames, comments=None, final_newline=True):
         texts.append(text)
         harness = src == "harness-formatter"
         tmp.write_text(text, encoding="utf-8", newline="")
-        for r in HET_ALL + HET_FIRST:
+        for r in HET_ALL + HET_FIRST + HET_PARSER:
             ctx.count(transitions=1)
             try:
-                res = do_read(r, text, tmp)
+                if r in HET_PARSER:
+                    from molli.parsing import read_xyz
+
+                    res = [xyz_block_shim(b) for b in list(read_xyz(io.StringIO(text)))]  # consume FIRST, compare afterwards
+                else:
+                    res = do_read(r, text, tmp)
             except Exception as e:
                 add(f"read-raised-{exc(e)}", src, r, f"{exc(e)}: {e}")
                 continue
@@ -1200,15 +1333,21 @@ def check_hetero(ctx, frames, comments=None, final_newline=True):
                         for s_, d in sy:
                             add(s_, src, r, d)
                 continue
-            if not isinstance(res, list) or any(not isinstance(g, RCLASS[cname]) for g in res):
+            if not isinstance(res, list) or (r not in HET_PARSER and any(not isinstance(g, RCLASS[cname]) for g in res)):
                 add("wrong-result-type", src, r, type(res).__name__)
                 continue
             if len(res) != k:
                 add("frame-count-changed", src, r, f"{len(res)} geometries read, {k} frames written")
                 continue
+            if r in HET_PARSER and any(not g.n_ok for g in res):
+                bad = next(g for g in res if not g.n_ok)
+                add("block-n_atoms-disagrees-with-its-atom-list", src, r, f"n_atoms={bad.n[0]}, {bad.n[1]} atoms in the block kept from list(read_xyz(...))")
             for fi in range(k):
                 sy = het_frame_symptoms(frames[fi], res[fi], harness)
                 if not sy:
+                    continue
+                if r in HET_PARSER:
+                    add("parser-block-content-differs-from-the-text", src, r, f"block {fi} of {k} kept from list(read_xyz(...)): " + "; ".join(d for _s, d in sy)[:300])
                     continue
                 # which clauses hold for an EARLIER frame of the text but not for this one -> state leaked between frames
                 mine = {clause_of(s_) for s_, _ in sy}
@@ -1224,22 +1363,31 @@ def check_hetero(ctx, frames, comments=None, final_newline=True):
                     else:
                         add(s_, src, r, f"frame {fi} of {k}: {d}")
     ctx.outcome(("RH", digest(texts), tuple(sorted(cells))))
+    if _collect:
+        return set(cells)
+    base_syms = set()
+    if comments is not None and cells:
+        # which symptoms belong to the COMMENT alphabet?  the same frames with plain titles are read too;
+        # what they show as well is reported without the comment tag
+        base_syms = check_hetero(ctx, frames, None, True, _collect=True)
 
     def rdesc(rs):
         rs = set(rs)
-        if rs == set(HET_ALL + HET_FIRST):
+        if rs == set(HET_ALL + HET_FIRST + HET_PARSER):
             return "*"
-        if rs == set(HET_ALL):
+        if rs == set(HET_ALL + HET_PARSER):
             return "all-frame-readers"
+        if rs == set(HET_ALL):
+            return "object-level-all-frame-readers"
         if rs == set(HET_FIRST):
             return "first-frame-readers"
-        return _desc(sorted(rs, key=(HET_ALL + HET_FIRST + ["-"]).index), HET_ALL + HET_FIRST)
+        return _desc(sorted(rs, key=(HET_ALL + HET_FIRST + HET_PARSER + ["-"]).index), HET_ALL + HET_FIRST + HET_PARSER)
 
     for sym in sorted(cells):
         for gs, gr in product_groups(cells[sym], 2):
             sd = "*" if set(gs) == set(HET_SOURCES) else ",".join(gs)
             ctx.violation(
-                f"rt-hetero|{ctag}{sym}|src={sd}|r={rdesc(gr)}",
+                f"rt-hetero|{'' if sym in base_syms else ctag}{sym}|src={sd}|r={rdesc(gr)}",
                 f"{k}-frame xyz text of different geometries ({gs[0]}), read by {gr[0]}: {detail[(sym, gs[0], gr[0])]}",
                 case,
                 repro=repro_hetero(frames, gr[0]),
@@ -1248,6 +1396,8 @@ def check_hetero(ctx, frames, comments=None, final_newline=True):
 
 def repro_hetero(frames, r):
     text = het_text(frames, "harness-formatter")
+    if "." not in r:  # a write-side finding: there is no reader in the cell
+        r = "CartesianGeometry.loads_all_xyz"
     cname, fn = r.split(".", 1)
     base = fn.split("[")[0]
     arg = "text" if (base.startswith("loads")) else "io.StringIO(text)"
@@ -1309,6 +1459,13 @@ def _part_inner(ctx, part):
             ctx.add_note(f"cases_{layer}")
             if idx == i and i < 2:
                 ctx.sample({"layer": layer, "gspec": g})
+        return
+    if layer == "RV":
+        for idx, (atoms, frames, ilist) in enumerate(gen_RV(seed, thorough)):
+            if idx % nparts != i:
+                continue
+            check_xyz_views(ctx, atoms, frames, ilist)
+            ctx.add_note("cases_RV")
         return
     if layer == "RS":
         for idx, (zs, mode) in enumerate(gen_RS(seed, thorough)):
@@ -1409,6 +1566,9 @@ def run(ctx):
         "object -> text -> object is judged against what the constructed OBJECT holds (normally exactly the requested values); text -> object is judged "
         "against the numbers in the file: layer RF (6 written decimals, |read - file| <= 0.5e-6 + 4 ulp, every reader of every class) and layer UNITS "
         "(units that are exact powers of ten of the Angstrom: rel. 1e-9; Bohr/au: rel. 1e-5)",
+        "layer RV: views as written objects - Substructure over ascending / reversed / shuffled index lists, CartesianGeometry/Structure/Molecule copies of it, Conformer views and "
+        "Molecule(conformer): line k of the written frame is (element, coordinates) of source.atoms[k] by the parent's data",
+        "generator-returning entry points (yield_from_xyz on every class, molli.parsing.read_xyz) are consumed with list() first and compared afterwards; a parser block must hold as many atoms as its n_atoms",
         "layer RS (foreign files): element symbols are matched case-insensitively - canonical 'Cl', upper 'CL', lower 'cl', inverted 'cL' and 'Unknown' in any case are the "
         "spellings the reference tree accepts for all 119 members of Element (measured when the layer was written); the expected element comes from the harness's own periodic "
         "table; NOT accepted by the reference tree and therefore not asserted: atomic numbers as text ('17'), element names ('Chlorine'), 'X', 'Du', 'D', 'T', symbols with an index ('C1'); "
@@ -1444,7 +1604,7 @@ def run(ctx):
     )
     np_ = 16 if thorough else 8
     parts = []
-    for layer in ("R0", "R4", "R3", "RF", "RW", "RC", "RC2", "RS", "RX", "RH", "UNITS", "R2", "R1"):
+    for layer in ("R0", "R4", "R3", "RF", "RW", "RC", "RC2", "RS", "RX", "RV", "RH", "UNITS", "R2", "R1"):
         n = 1 if layer == "R0" else np_ * (4 if (thorough and layer in ("R1", "R2")) else 1)
         parts += [(layer, i, n) for i in range(n)]
     ctx.pmap(_part, parts)
@@ -1453,6 +1613,8 @@ def run(ctx):
 def replay(ctx, case):
     if case["layer"] == "RT":
         check_geom(ctx, normspec(case["gspec"]), kinds=case.get("kinds"), edit=case.get("edit"), name_tag=bool(case.get("name_tag")))
+    elif case["layer"] == "RV":
+        check_xyz_views(ctx, [(int(a[0]), int(a[1])) for a in case["atoms"]], [[[fl(c) for c in p] for p in f] for f in case["frames"]], [int(x) for x in case["idx"]])
     elif case["layer"] == "RS":
         check_spellings(ctx, [int(z) for z in case["zs"]], case["mode"])
     elif case["layer"] == "RF":
